@@ -29,6 +29,47 @@ assert os.path.abspath(dfols.__file__).startswith(os.path.abspath(REPO) + os.sep
     "dfols imported from %s, not from %s" % (dfols.__file__, REPO)
 
 NPROC = int(os.environ.get("VERIF_NPROC", "16"))
+
+# ----------------------------------------------------------------------------------------------
+# Optional line coverage of the tree under test (tools/linecov.sh): VERIF_LINECOV=<dir> makes every process of a check
+# record which lines of REPO/dfols it executed (sys.monitoring, each location disabled after its first hit, so the cost
+# is negligible) and write them to <dir>/<check>.<pid>.json. Used to find code no check ever runs; not part of a verdict.
+# ----------------------------------------------------------------------------------------------
+LINECOV = os.environ.get("VERIF_LINECOV")
+_cov_hits = set()
+_cov_dumped = [0]
+
+
+def _cov_dump():
+    if LINECOV and len(_cov_hits) != _cov_dumped[0]:
+        _cov_dumped[0] = len(_cov_hits)
+        p = os.path.join(LINECOV, "%s.%d.json" % (os.environ.get("VERIF_LINECOV_TAG", "x"), os.getpid()))
+        with open(p + ".tmp", "w") as f:
+            json.dump(sorted(_cov_hits), f)
+        os.replace(p + ".tmp", p)
+
+
+if LINECOV and hasattr(sys, "monitoring"):
+    os.makedirs(LINECOV, exist_ok=True)
+    _pkg = os.path.join(os.path.abspath(REPO), "dfols") + os.sep
+    _mon = sys.monitoring
+
+    def _cov_line(code, line, _pkg=_pkg, _hits=_cov_hits, _dis=_mon.DISABLE):   # bound early: also called at shutdown
+        if code.co_filename.startswith(_pkg):
+            _hits.add((code.co_filename[len(_pkg):], line))
+        return _dis
+
+    _mon.use_tool_id(_mon.COVERAGE_ID, "verif-linecov")
+    _mon.register_callback(_mon.COVERAGE_ID, _mon.events.LINE, _cov_line)
+    _mon.set_events(_mon.COVERAGE_ID, _mon.events.LINE)
+    import atexit
+    atexit.register(_cov_dump)
+
+
+def _cov_wrap(ft):
+    r = ft[0](ft[1])
+    _cov_dump()
+    return r
 NSALTS = 8
 
 
@@ -244,5 +285,9 @@ def pool_map(func, tasks, nproc=None, chunksize=1):
         return
     ctx = mp.get_context("fork")
     with ctx.Pool(min(nproc, len(tasks))) as pool:
+        if LINECOV:
+            for r in pool.imap_unordered(_cov_wrap, [(func, t) for t in tasks], chunksize):
+                yield r
+            return
         for r in pool.imap_unordered(func, tasks, chunksize):
             yield r
